@@ -25,12 +25,23 @@ func (errorEncoder) Write(enc *Encoder, v interface{}) {
 	case error:
 		enc.WriteError(v)
 	case *error:
-		enc.WriteError(*v)
+		if v == nil {
+			enc.WriteNil()
+		} else {
+			enc.WriteError(*v)
+		}
+	default:
+		// a nil value of the interface type error (a struct field, an element)
+		enc.WriteNil()
 	}
 }
 
 // WriteError to encoder.
 func (enc *Encoder) WriteError(e error) {
+	if e == nil {
+		enc.WriteNil()
+		return
+	}
 	enc.AddReferenceCount(1)
 	s := e.Error()
 	enc.buf = append(enc.buf, TagError)
